@@ -20,7 +20,7 @@ RULE = ("Hypothesis-generated OMEN models (n-gram 2..5, alphabet 2-4 symbols inc
         "Non-trivial = the level has >=2 strings, one of length >= n+1, and the model has a dead-end or unaffordable context; "
         "distinct = hash of (model, level, history position).")
 ASSUMPTIONS = ["every IP / CP n-gram is listed once (the trainer's format)", "at least one IP and one length have a level below 10",
-               "levels whose reference set exceeds 30000 strings are skipped and counted"]
+               "levels whose reference set exceeds 30000 strings, or whose prefix space (partial strings within the level budget) exceeds 200000, are inconclusive: skipped and counted"]
 
 _DIR = None
 
@@ -78,6 +78,9 @@ def load_model(om, case):
 
 class StepBudget(Exception):
     pass
+
+
+SEARCH_CAP = 200000          # (model, level) pairs whose prefix space is larger are inconclusive
 
 
 _REC = [None]
@@ -163,11 +166,16 @@ def prop_levels(case, rec):
     ref_model = omen_ref.from_model_dict(om)
     dead, expensive = model_features(om)
     for level in case.get('levels') or range(0, 13):
+        sub = dict(case, levels=[level])
+        if omen_ref.search_space(ref_model, level, cap=SEARCH_CAP) > SEARCH_CAP:
+            # a tiny level can still need an astronomically long search (cheap transitions in cycles over 21 lengths), for
+            # the real generator and for the reference alike: that is slowness, not a wrong result - inconclusive, not judged
+            rec.skip('search_space_too_large_inconclusive')
+            continue
         ref = omen_ref.enumerate_level(ref_model, level, cap=30000)
         if ref is None:
             rec.skip('level_too_large')
             continue
-        sub = dict(case, levels=[level])
         got, done = drain(sub, grammar, level, Optimizer(max_length=4), nref=len(ref))
         nontriv = len(ref) >= 2 and any(len(s) >= om['ngram'] + 1 for s in ref) and (dead or expensive)
         cls = [f"ngram{om['ngram']}"] + (['dead_end'] if dead else []) + (['expensive_only_context'] if expensive else []) + \
@@ -177,7 +185,7 @@ def prop_levels(case, rec):
 
 
 def run_levels(rec, seed, shard, nshards, tier):
-    n = {'quick': 60, 'thorough': 2500}[tier]
+    n = {'quick': 150, 'thorough': 2500}[tier]
     core.hyp_run(rec, prop_levels, omen_models().map(lambda om: {'omen': om}), n, seed)
     rec.classes['peak_lookups_per_string_x1'] = int(_STEPS['peak_ratio'])
 
@@ -207,6 +215,9 @@ def make_machine(rec):
         @rule(level=st.integers(0, 12))
         def generate(self, level):
             self.ops.append(['generate', level])
+            if omen_ref.search_space(self.ref_model, level, cap=SEARCH_CAP) > SEARCH_CAP:
+                rec.skip('search_space_too_large_inconclusive')
+                return
             ref = omen_ref.enumerate_level(self.ref_model, level, cap=30000)
             if ref is None:
                 rec.skip('level_too_large')
@@ -220,6 +231,9 @@ def make_machine(rec):
         @rule(level=st.integers(0, 12), j=st.integers(1, 12))
         def generate_partial(self, level, j):
             self.ops.append(['partial', level, j])
+            if omen_ref.search_space(self.ref_model, level, cap=SEARCH_CAP) > SEARCH_CAP:
+                rec.skip('search_space_too_large_inconclusive')
+                return
             ref = omen_ref.enumerate_level(self.ref_model, level, cap=30000)
             if ref is None:
                 rec.skip('level_too_large')
@@ -248,12 +262,16 @@ def replay_history(case, rec):
         if op[0] == 'optimizer':
             opt = Optimizer(max_length=op[1])
         elif op[0] == 'generate':
+            if omen_ref.search_space(ref_model, op[1], cap=SEARCH_CAP) > SEARCH_CAP:
+                continue
             ref = omen_ref.enumerate_level(ref_model, op[1], cap=30000)
             if ref is None:
                 continue
             got, _ = drain(case, grammar, op[1], opt, nref=len(ref))
             compare(case, op[1], got, ref, 'replayed history,')
         elif op[0] == 'partial':
+            if omen_ref.search_space(ref_model, op[1], cap=SEARCH_CAP) > SEARCH_CAP:
+                continue
             ref = omen_ref.enumerate_level(ref_model, op[1], cap=30000)
             if ref is None:
                 continue
@@ -264,7 +282,7 @@ def replay_history(case, rec):
 
 def run_histories(rec, seed, shard, nshards, tier):
     _REC[0] = rec
-    n = {'quick': 25, 'thorough': 600}[tier]
+    n = {'quick': 60, 'thorough': 600}[tier]
     core.hyp_machine(rec, make_machine(rec), n, 12 if tier == 'quick' else 25, seed)
 
 
